@@ -16,28 +16,28 @@ class Verdict(Exception):
 
 
 # ------------------------------------------------------------------------------------------------ RFC 9112 reader (the oracle)
-def rfc_head(head):
+def rfc_head(head, strict=True):
     """head: bytes up to and including the first CRLFCRLF.  Returns ('bad', why) for members of the property's rejected class,
     ('ok', framing, v11, keepalive, method, target) for heads this reader is sure about, ('unsure', why) otherwise."""
     if b"\x00" in head: return ("bad", "NUL byte in the request line or header section")
     lines = head[:-4].split(b"\r\n")
-    if any(b"\n" in l for l in lines): return ("bad", "bare LF line end")
+    if any(b"\n" in l for l in lines): return ("bad", "bare LF line end") if strict else ("unsure", "bare LF line end, header-strict off")
     m = re.fullmatch(rb"(" + TOKEN + rb") ([^ ]+) HTTP/1\.([01])", lines[0])
     if not m:
         if re.fullmatch(rb"(" + TOKEN + rb") .* HTTP/1\.[01]", lines[0], flags=re.S) and re.search(rb"[\x00-\x1f\x7f]", lines[0]):
-            return ("bad", "control character in the request-target")
+            return ("bad", "control character in the request-target") if strict else ("unsure", "control character, header-strict off")
         return ("unsure", "request line %r" % lines[0][:60])
     meth, target, minor = m.group(1), m.group(2), m.group(3)
-    if re.search(rb"[\x00-\x1f\x7f]", target): return ("bad", "control character in the request-target")
+    if re.search(rb"[\x00-\x1f\x7f]", target): return ("bad", "control character in the request-target") if strict else ("unsure", "control character, header-strict off")
     fields = []
     for l in lines[1:]:
         if l[:1] in (b" ", b"\t"): return ("unsure", "obs-fold")
         fm = re.fullmatch(rb"([^:]*):[ \t]*(.*?)[ \t]*", l, flags=re.S)
         if not fm: return ("unsure", "header line without colon %r" % l[:40])
         k, v = fm.group(1), fm.group(2)
-        if k[-1:] in (b" ", b"\t"): return ("bad", "whitespace before the field colon")
+        if k[-1:] in (b" ", b"\t"): return ("bad", "whitespace before the field colon") if strict else ("unsure", "whitespace before the colon, header-strict off")
         if not re.fullmatch(TOKEN, k): return ("unsure", "field name %r" % k[:40])
-        if re.search(rb"[\x00-\x08\x0a-\x1f\x7f]", v): return ("bad", "control character in a field value")
+        if re.search(rb"[\x00-\x08\x0a-\x1f\x7f]", v): return ("bad", "control character in a field value") if strict else ("unsure", "control character, header-strict off")
         fields.append((k.lower(), v))
     cl = [v for k, v in fields if k == b"content-length"]
     te = [v for k, v in fields if k == b"transfer-encoding"]
@@ -48,7 +48,7 @@ def rfc_head(head):
     if cl and int(cl[0]) > 2 ** 63 - 1: return ("bad", "Content-Length overflow")
     if any(v.lower() != b"chunked" for v in te) or len(te) > 1: return ("bad", "Transfer-Encoding other than exactly chunked")
     if te and minor == b"0": return ("bad", "Transfer-Encoding on HTTP/1.0")
-    if te and cl: return ("bad", "Content-Length together with Transfer-Encoding")
+    if te and cl: return ("bad", "Content-Length together with Transfer-Encoding") if strict else ("unsure", "Content-Length with Transfer-Encoding, header-strict off")
     if minor == b"1" and not host and not re.match(rb"https?://[^/ ]+/", target, flags=re.I): return ("bad", "HTTP/1.1 request without Host")
     if len(host) > 1 or any(k in (b"expect", b"upgrade", b"http2-settings") for k, _ in fields): return ("unsure", "Host repeated / Expect / Upgrade")
     if meth in (b"CONNECT", b"PRI", b"HEAD") or target == b"*": return ("unsure", "method/target form outside this reader")
@@ -90,18 +90,19 @@ def rfc_chunked(data, pos):
         pos += n + 2
 
 
-def rfc_messages(stream):
+def rfc_messages(stream, strict=True):
     """[('ok', method, target, body, ka)] ... then possibly one of ('bad', why) / ('incomplete', why) / ('unsure', why)"""
     out = []; pos = 0
     while pos < len(stream):
         if stream[pos:pos + 1] in (b"\r", b"\n"):          # an empty line before a request line may be ignored (RFC 9112 2.2) or refused; either way is fine
             out.append(("unsure", "empty line before a request line")); return out
-        e = stream.find(b"\r\n\r\n", pos)
-        e2 = stream.find(b"\n\n", pos)
-        if e2 >= 0 and (e < 0 or e2 < e): out.append(("bad", "bare LF line end")); return out
-        if e < 0:
+        mend = re.compile(rb"\n\r?\n").search(stream, pos)          # the first empty line, whatever its line ends
+        if not mend:
             out.append(("incomplete", "header section") if b"\x00" not in stream[pos:] else ("unsure", "NUL in an unfinished header section")); return out
-        h = rfc_head(stream[pos:e + 4])
+        e = mend.end() - 4
+        if e < pos or stream[e:e + 4] != b"\r\n\r\n" or re.search(rb"(?<!\r)\n", stream[pos:e + 4]):
+            out.append(("bad", "bare LF line end") if strict else ("unsure", "bare LF line end, header-strict off")); return out
+        h = rfc_head(stream[pos:e + 4], strict)
         if h[0] != "ok": out.append(h); return out
         _, framing, v11, ka, meth, target = h
         if e + 4 - pos > MAXF: out.append(("unsure", "header section above the configured limit")); return out
@@ -292,9 +293,9 @@ def echo_of(meth, body):
     return b"M=" + meth + b" CL=%d BODY=" % len(body) + body
 
 
-def monitor(stream, resp, closed):
+def monitor(stream, resp, closed, strict=True):
     """the property, judged from the property text with the RFC reader above; None when it holds on this observation"""
-    msgs = rfc_messages(stream)
+    msgs = rfc_messages(stream, strict)
     nok = 0
     for m in msgs:
         if m[0] == "ok": nok += 1
@@ -371,25 +372,35 @@ def describe(stream, segs):
     return "bytes %r sent as %d segment(s) of sizes %s" % (stream[:400], len(segs), [len(x) for x in segs][:12])
 
 
-def run_system(ctx, label="h1-connection"):
+VARIANTS = [
+    dict(name="default", conf="", flags=FLAGS, strict=True, streaming=False),
+    dict(name="stream1", conf='server.stream-request-body = 1\n', flags=FLAGS, strict=True, streaming=True),
+    dict(name="stream2", conf='server.stream-request-body = 2\n', flags=FLAGS, strict=True, streaming=True),
+    dict(name="lenient", conf='server.http-parseopts = ("header-strict" => "disable", "host-strict" => "disable", "host-normalize" => "disable")\n', flags=9560, strict=False, streaming=False),
+]
+ECHO_SH = ('#!/bin/sh\nprintf \'Content-Type: text/plain\\r\\n\\r\\n\'\nprintf \'M=%s CL=%s BODY=\' "$REQUEST_METHOD" "$CONTENT_LENGTH"\ncat\n').encode()
+
+
+def chunked_to_cgi(st):
+    return bool(re.search(rb"(?i)transfer-encoding", st)) and ECHO in st
+
+
+def run_variant(ctx, v, model, streams, label):
     import srv as srvmod
-    model = vlib.model_driver("C01")
-    thorough = ctx.tier == "thorough"
-    sh = ('#!/bin/sh\nprintf \'Content-Type: text/plain\\r\\n\\r\\n\'\nprintf \'M=%s CL=%s BODY=\' "$REQUEST_METHOD" "$CONTENT_LENGTH"\ncat\n').encode()
-    s = srvmod.Server(ctx, "h1conn", 'cgi.assign = (".sh" => "/bin/sh")\nindex-file.names = ("index.html")\nserver.max-request-field-size = %d\n' % MAXF,
-                      files={"index.html": b"INDEX", "cgi/e.sh": sh}, modules=["mod_cgi"])
-    streams = gen_streams(ctx, 2500 if thorough else 520)
+    s = srvmod.Server(ctx, "h1conn_" + v["name"], 'cgi.assign = (".sh" => "/bin/sh")\nindex-file.names = ("index.html")\nserver.max-request-field-size = %d\n' % MAXF + v["conf"],
+                      files={"index.html": b"INDEX", "cgi/e.sh": ECHO_SH}, modules=["mod_cgi"])
+    rng = ctx.rng.__class__(ctx.seed * 31337 + sum(map(ord, v["name"])))
     jobs = []
     for st in streams:
-        for segs in segmentations(ctx.rng, st):
+        for segs in segmentations(rng, st):
             jobs.append((st, segs))
     s.start()
     try:
-        with ThreadPoolExecutor(12) as ex:
+        with ThreadPoolExecutor(8) as ex:
             obs = list(ex.map(lambda j: talk(s.port, j[1]), jobs))
     finally:
         rc = s.stop()
-    _, out_m, _ = vlib.run_lines_sharded(model, ["C %d %d %s" % (FLAGS, MAXF, hx(st)) for st in streams])
+    _, out_m, _ = vlib.run_lines_sharded(model, ["C %d %d %s" % (v["flags"], MAXF, hx(st)) for st in streams])
     pred = dict(zip(streams, out_m))
     stats = dict(streams=len(streams), connections=len(jobs), responses=0, disagreements=0, violations=0, segmentation_differences=0, kinds={})
     found = False; nrep = 0; ndis = 0
@@ -399,22 +410,24 @@ def run_system(ctx, label="h1-connection"):
         stats["responses"] += len(resp)
         for e in pred[st].split(" | "):
             k = e.split()[0] if e.strip() else "-"; stats["kinds"][k] = stats["kinds"].get(k, 0) + 1
-        rep = dict(kind="system", stream=st.decode("latin-1"), segments=[len(x) for x in segs], responses=[(a, b[:120].decode("latin-1")) for a, b in resp], closed=closed, model=pred[st])
+        rep = dict(kind="system", variant=v["name"], conf=v["conf"], stream=st.decode("latin-1"), segments=[len(x) for x in segs],
+                   responses=[(a, b[:120].decode("latin-1")) for a, b in resp], closed=closed, model=pred[st])
         byseg.setdefault(st, []).append(([(a, b) for a, b in resp], closed))
-        why = monitor(st, resp, closed)
+        why = monitor(st, resp, closed, strict=v["strict"])
         if why:
             stats["violations"] += 1; found = True
             if nrep < 3:
                 nrep += 1
-                ctx.violate("h1conn:" + hx(st)[:48], "C01 fails on the running server: %s; %s" % (why, describe(st, segs)), rep)
+                ctx.violate("h1conn:%s:%s" % (v["name"], hx(st)[:48]), "C01 fails on the running server (%s): %s; %s" % (v["name"], why, describe(st, segs)), rep)
             continue
+        if v["streaming"] and chunked_to_cgi(st): continue      # 411 or 200 depending on arrival: judged below as a segmentation difference
         dis = compare(pred[st], resp, closed)
         if dis:
             stats["disagreements"] += 1
             if ndis < 2:
                 ndis += 1
-                ctx.violate("h1conn-correspondence", "the server no longer frames the connection the way the model does (correspondence %s broken): %s; %s" % (label, dis, describe(st, segs)),
-                            dict(rep, correspondence=label), no_input=True)
+                ctx.violate("h1conn-correspondence:" + v["name"], "the server no longer frames the connection the way the model does (correspondence %s/%s broken): %s; %s"
+                            % (label, v["name"], dis, describe(st, segs)), dict(rep, correspondence=label + "/" + v["name"]), no_input=True)
     def outcome(o):
         resp, closed = o
         return ([(st, body) if st < 400 else ("refused", b"") for st, body in resp], closed)
@@ -423,15 +436,29 @@ def run_system(ctx, label="h1-connection"):
         if others:
             lst = [lst[0], others[0]]
             stats["segmentation_differences"] += 1
-            cutflag = any(e.split()[0] == "A" and e.split()[5] == "1" for e in pred[st].split(" | ") if e.strip())
-            ctx.violate("h1conn-segmentation" + (":overlong-trailers" if cutflag else ""),
-                        "C01 fails on the running server: the same bytes %r lead to different outcomes depending on how they are cut into TCP segments: in one piece %r, in pieces %r"
-                        % (st[:300] + (b"..." if len(st) > 300 else b""), [(a, b[:40]) for a, b in lst[0][0]] + [lst[0][1]], [(a, b[:40]) for a, b in lst[1][0]] + [lst[1][1]]),
-                        dict(kind="system", stream=st.decode("latin-1"), one_piece=str(lst[0])[:600], pieces=str(lst[1])[:600], model=pred[st]))
-            found = True
-    ctx.cov["correspondence"][label] = dict(cases=len(jobs), disagreements=stats["disagreements"], detail=stats)
-    ctx.cov["evaluations"] += len(jobs); ctx.cov["distinct_nontrivial"] += sum(1 for st in streams if pred[st].strip() and pred[st].split()[0] in ("A", "R"))
+            key = "h1conn-segmentation" + (":streaming-chunked-cgi" if v["streaming"] and chunked_to_cgi(st) else "")
+            ctx.violate(key, "C01 fails on the running server (%s): the same bytes %r lead to different outcomes depending on how they are cut into TCP segments: in one piece %r, in pieces %r"
+                        % (v["name"], st[:300] + (b"..." if len(st) > 300 else b""), [(a, b[:40]) for a, b in lst[0][0]] + [lst[0][1]], [(a, b[:40]) for a, b in lst[1][0]] + [lst[1][1]]),
+                        dict(kind="system", variant=v["name"], conf=v["conf"], stream=st.decode("latin-1"), one_piece=str(lst[0])[:600], pieces=str(lst[1])[:600], model=pred[st]))
+            if not key.endswith("cgi"): found = True
     if rc not in (0, 1, -15):
-        ctx.violate("h1conn-crash", "server exited with %s under the connection-level streams" % rc, dict(kind="crash", log=s.log()[-2000:]))
+        ctx.violate("h1conn-crash:" + v["name"], "server exited with %s under the connection-level streams (%s)" % (rc, v["name"]), dict(kind="crash", log=s.log()[-2000:]))
         found = True
+    stats["nontrivial"] = sum(1 for st in streams if pred[st].strip() and pred[st].split()[0] in ("A", "R"))
+    return stats, found
+
+
+def run_system(ctx, label="h1-connection"):
+    import srv as srvmod
+    srvmod.build_server()
+    model = vlib.model_driver("C01")
+    thorough = ctx.tier == "thorough"
+    streams = gen_streams(ctx, 2500 if thorough else 520)
+    found = False; allstats = {}
+    with ThreadPoolExecutor(2) as ex:
+        futs = [(v["name"], ex.submit(run_variant, ctx, v, model, streams if v["name"] == "default" else streams[: (len(streams) * 2) // 3], label)) for v in VARIANTS]
+        for name, f in futs:
+            st, fnd = f.result(); allstats[name] = st; found = found or fnd
+    ctx.cov["correspondence"][label] = dict(cases=sum(s["connections"] for s in allstats.values()), disagreements=sum(s["disagreements"] for s in allstats.values()), detail=allstats)
+    ctx.cov["evaluations"] += sum(s["connections"] for s in allstats.values()); ctx.cov["distinct_nontrivial"] += sum(s["nontrivial"] for s in allstats.values())
     return found
